@@ -169,6 +169,22 @@ func (c *c06World) build(s *gen.Stream, id string) (*gen.World, *gen.Cert) {
 	w.RootCrl.NextUpdate = c.win["rootcrl"].NotAfter
 	w.PckCrl.ThisUpdate = c.win["pckcrl"].NotAfter.AddDate(-40, 0, 0)
 	w.RootCrl.ThisUpdate = c.win["rootcrl"].NotAfter.AddDate(-40, 0, 0)
+	// a window that starts centuries before its end: the document / list says so itself
+	if nb := c.win["tcbinfo-document"].NotBefore; !nb.IsZero() && nb.Year() < 1800 {
+		w.TcbInfo.IssueDate = nb
+	}
+	if nb := c.win["qeidentity-document"].NotBefore; !nb.IsZero() && nb.Year() < 1800 {
+		w.QeID.IssueDate = nb
+	}
+	if nb := c.win["pckcrl"].NotBefore; !nb.IsZero() && nb.Year() < 1800 {
+		w.PckCrl.ThisUpdate = nb
+	}
+	if nb := c.win["rootcrl"].NotBefore; !nb.IsZero() && nb.Year() < 1800 {
+		w.RootCrl.ThisUpdate = nb
+	}
+	// the documents may spell their dates in another zone, with a numeric offset: the instants are the same
+	zones := []*time.Location{nil, nil, time.FixedZone("east", 14*3600), time.FixedZone("west", -12*3600), time.FixedZone("half", 5*3600+1800)}
+	w.TcbInfo.DateZone, w.QeID.DateZone = zones[s.Intn(len(zones))], zones[s.Intn(len(zones))]
 	if c.inverted {
 		w.TcbInfo.IssueDate = w.TcbInfo.NextUpdate.AddDate(3, 0, 0)
 		w.QeID.IssueDate = w.QeID.NextUpdate.AddDate(3, 0, 0)
@@ -470,6 +486,12 @@ func TestC06(t *testing.T) {
 				w.NotBefore = c.times[ti].Add(time.Duration(-off) * time.Second)
 			} else {
 				w.NotAfter = c.times[ti].Add(time.Duration(-off) * time.Second)
+			}
+			if which == "notAfter" && rapid.IntRange(0, 2).Draw(t, "ancientStart") == 0 {
+				// a start of validity centuries before the end (a lifetime no Duration can hold): the end is the end
+				w.NotBefore = time.Date(rapid.SampledFrom([]int{1700, 1601, 1}).Draw(t, "startYear"), 1, 1, 0, 0, 0, 0, time.UTC)
+				which = "notAfter(start of validity in the distant past)"
+				gen.Class("window-starting-centuries-before-its-end")
 			}
 			if !w.NotAfter.After(w.NotBefore) {
 				continue
